@@ -60,7 +60,7 @@ def illegal_variants(name, shapes, args, rng):
 
 def gen_cases(tier, seed):
     rng = gen.rng_for(seed, "c05", tier)
-    budget = {"quick": 300, "thorough": 15000}[tier]
+    budget = {"quick": 600, "thorough": 15000}[tier]
     cases = []
     for name, op in OPS.items():
         g = catalog.grid(name, tier, rng)
